@@ -274,7 +274,28 @@ def work(sh):
     return acc.to_dict()
 
 
+def special_programs():
+    """Hand-written repro programs of recorded findings that the grammars cannot express (replayed every run, never generated)."""
+    import jax.numpy as jnp
+
+    return {
+        # found through C07's dtype-varying call sites: a float16 value requested by the callable itself meets the float policy
+        "abs_after_astype_float16": (lambda x: jnp.abs(x.astype(jnp.float16)).astype(jnp.float32), [((3, 4), np.float32)]),
+    }
+
+
+def check_special(name):
+    import jax
+    from vf import jaxutil
+
+    fn, specs = special_programs()[name]
+    model = jaxutil.to_onnx(fn, [jax.ShapeDtypeStruct(s, d) for s, d in specs])
+    return check_model(model, {"layer": "special", "program": name}, {"kind": "special", "name": name}, None)
+
+
 def replay(case):
+    if case["kind"] == "special":
+        return check_special(case["name"])
     if case["kind"] == "catalog":
         return check_catalog(case["id"], case["double"], case["opset"], None)
     return check_generated(case["gk"], case["a"], case["b"], case["cfg"], None)
